@@ -2,7 +2,9 @@ package gbn
 
 import (
 	"context"
+	"fmt"
 	"io"
+	"math"
 	"time"
 )
 
@@ -139,6 +141,14 @@ handshakeLoop:
 
 		g.log.Debugf("Received client SYN. Sending back.")
 		n = msg.(*PacketSYN).N
+
+		// The sequence space is n+1 and must fit into a uint8, and a
+		// window of zero packets could never move: refuse to adopt a
+		// window size the protocol cannot represent.
+		if n == 0 || n == math.MaxUint8 {
+			return fmt.Errorf("client proposed invalid window "+
+				"size %d", n)
+		}
 
 		// Send SYN back
 		syn := &PacketSYN{N: n}
